@@ -780,7 +780,19 @@ func runCase(r *hx.Run, sub uint64, ops []string) {
 	foreign, moved := 0, 0
 	for _, op := range ops {
 		f := strings.Fields(op)
-		if len(f) == 0 || f[0] == "obs" {
+		if len(f) == 0 || f[0] == "obs" || f[0] == "sched" {
+			continue
+		}
+		if f[0] == "lin" {
+			// replay of a recorded concurrent history: judged again against container/list after the setup lines
+			if sub == 0 {
+				var setup [][]string
+				for _, o := range trail {
+					setup = append(setup, strings.Fields(o))
+				}
+				replayLin(r, setup, f)
+			}
+
 			continue
 		}
 		kinds := t.kinds(f)
@@ -1730,6 +1742,11 @@ func main() {
 		"non-trivial = at least 5 distinct op kinds, one call with a removed or foreign handle and one MoveBefore/MoveAfter " +
 		"with two distinct live handles; distinct by sha256 of the op lines"
 	if lines := r.ReplayLines(); lines != nil {
+		if replaySched(r, lines) {
+			r.Finish()
+
+			return
+		}
 		runCase(r, 0, lines)
 		runCase(r, 3, lines)
 		r.Finish()
@@ -1783,5 +1800,6 @@ func main() {
 	r.Extra["deadlocks"] = deadlocks
 	concurrentSmoke(r)
 	readerSnapshots(r)
+	concurrentHistories(r)
 	r.Finish()
 }
